@@ -201,6 +201,24 @@ def execute(case):
         nas = [id(p) for p in m.nas_parameters()]
         net = [id(p) for p in m.net_parameters()]
         bump('partition_checks')
+        # the listing itself must be stable: asking again (also after a partially consumed iterator was dropped)
+        # gives the same parameters in the same order
+        it_ = m.nas_parameters()
+        next(it_, None)
+        del it_
+        it_ = m.net_parameters()
+        next(it_, None)
+        del it_
+        nas2 = [id(p) for p in m.nas_parameters()]
+        net2 = [id(p) for p in m.net_parameters()]
+        if nas2 != nas or net2 != net:
+            fail('nas_parameters() / net_parameters() give another answer when asked again', 'partition-unstable',
+                 f'{tag}: nas {len(nas)} -> {len(nas2)} net {len(net)} -> {len(net2)}', culprit)
+        named_nas = [id(p) for _, p in m.named_nas_parameters()]
+        named_net = [id(p) for _, p in m.named_net_parameters()]
+        if named_nas != nas or named_net != net:
+            fail('named_*_parameters() and *_parameters() do not list the same parameters', 'partition-named-differs',
+                 f'{tag}: nas {len(nas)} vs named {len(named_nas)}; net {len(net)} vs named {len(named_net)}', culprit)
         if len(set(nas)) != len(nas) or len(set(net)) != len(net):
             fail('a parameter is reported twice by nas_parameters() or net_parameters()', 'partition-duplicate',
                  f'{tag}: nas {len(nas)}/{len(set(nas))} net {len(net)}/{len(set(net))}', culprit)
